@@ -1121,7 +1121,25 @@ class Interp:
                 self.comprehension(node.args[0], env, into=recv)
                 return const(None)
         args = tuple(self.eval(a, env) for a in node.args)
-        kws = tuple((k.arg, self.eval(k.value, env)) for k in node.keywords)
+        kws = []
+        for k in node.keywords:
+            v = self.eval(k.value, env)
+            if k.arg is None and v[0] == "dict" and all(
+                    is_const(kk) and isinstance(kk[1], str)
+                    for kk, _ in v[1]):
+                # f(**d) for a local dict display: its entries as keywords,
+                # each with the value last stored under that key
+                for kk, vv in v[1]:
+                    cur = vv
+                    for loc, val in self.path.heap.items():
+                        if loc[0] == "index" and loc[1] == v and (
+                                loc[2] == kk or (not is_const(loc[2])
+                                                 and self.equal(loc[2], kk))):
+                            cur = val
+                    kws.append((kk[1], cur))
+                continue
+            kws.append((k.arg, v))
+        kws = tuple(kws)
         # closures defined in this activation
         if isinstance(f, ast.Name) and f.id in env and \
                 env[f.id][0] == "closure":
@@ -1140,6 +1158,33 @@ class Interp:
             return ("copyof", args[0])
         if ft[0] == "attr" and ft[2] == "copy" and not args and not kws:
             return ("copyof", ft[1])
+        if ft[0] == "global" and ft[1].endswith(".get") and len(args) == 1 \
+                and not kws:
+            tbl = self._global_dict(("global", ft[1][:-4]))
+            if tbl is not None and all(isinstance(
+                    k, (str, int)) for k in tbl):
+                # <module-level literal table>.get(k): the value under the key
+                # the path has established, None when there is none
+                for k, v in tbl.items():
+                    if self.equal(args[0], const(k)):
+                        if isinstance(v, (str, int, float, bool, type(None),
+                                          tuple)):
+                            return const(v)
+                        break
+                else:
+                    return const(None)
+        if ft == ("global", "builtins.dict.fromkeys") and len(args) == 2 \
+                and not kws:
+            keys = None
+            if args[0][0] in ("tuple", "list") and all(
+                    is_const(x) for x in args[0][1]):
+                keys = [x for x in args[0][1]]
+            else:
+                t = self._global_table(args[0])
+                if t is not None:
+                    keys = [const(x) for x in t]
+            if keys is not None:
+                return ("dict", tuple((k, args[1]) for k in keys))
         if ft[0] == "attr" and ft[2] == "get" and len(args) == 1 and not kws \
                 and ft[1][0] not in ("const",):
             # d.get(k): the value d[k], or None when k is not in d
